@@ -72,7 +72,7 @@ def run(ctx):
     if ctx.replay_in:
         chosen = conf_list
     else:
-        budget = 4000 if ctx.thorough else 500
+        budget = 4000 if ctx.thorough else 300
         core = [t for t in conf_list if set(conform[t][0]["cls"]) <= CORE and conform[t][0]["src"] == "tlc"]
         if len(core) > budget // 2:
             core = ctx.rng.sample(core, budget // 2)
